@@ -21,7 +21,7 @@ enum { EV_SCHED_CALL = 1, EV_SCHED_RET, EV_CANCEL_CALL, EV_CANCEL_RET, EV_INVOKE
        EV_ACQUIRE };
 
 enum { F_CANCEL_FAR, F_CANCEL_RACING, F_CANCEL_FROM_TASK, F_RELEASE_RIGHT_AFTER_SCHEDULE, F_PENDING_AT_RELEASE, F_SELF_RESCHEDULE,
-       F_TASK_SCHEDULES_TASK, F_MULTI_CLIENT, F_FINAL_RELEASE_BY_CLIENT, F_RUN_THEN_CANCELED_AMBIGUOUS, F_CANCELED_IN_HANDOVER, F_TIMED_TASK_RAN };
+       F_TASK_SCHEDULES_TASK, F_MULTI_CLIENT, F_FINAL_RELEASE_BY_CLIENT, F_RUN_THEN_CANCELED_AMBIGUOUS, F_CANCELED_IN_HANDOVER, F_TIMED_TASK_RAN, F_CANCEL_BEFORE_TIME };
 
 #define MAX_TASKS 96
 #define MAX_CLIENTS 3
@@ -30,7 +30,7 @@ enum { F_CANCEL_FAR, F_CANCEL_RACING, F_CANCEL_FROM_TASK, F_RELEASE_RIGHT_AFTER_
 
 enum when { W_NOW, W_NEAR, W_FAR, W_PAST };
 enum act_kind { A_SCHED, A_CANCEL, A_ACQ_REL, A_PAUSE };
-enum fn_script { S_NONE, S_SCHED_CHILD, S_CANCEL_OTHER, S_SELF_RESCHED };
+enum fn_script { S_NONE, S_SCHED_CHILD, S_CANCEL_OTHER, S_SELF_RESCHED, S_BUSY };
 
 struct vtask {
     struct aws_task task;
@@ -42,6 +42,8 @@ struct vtask {
     int script_target; /* child task id / victim id */
     bool cancel_planned;
     bool cancel_from_task;
+    uint32_t busy_us;           /* S_BUSY: the function keeps the scheduler thread busy this long when RUN */
+    uint32_t slow_on_cancel_us; /* the function takes this long when invoked with CANCELED (a slow callback is legal) */
     /* written by whoever schedules (before the call), read by the task function (after the library's hand-over) */
     uint64_t sched_time[2];
     int incarnations; /* bumped by the scheduling thread before each schedule call */
@@ -111,7 +113,8 @@ static void do_schedule(struct vtask *vt) {
 static void do_cancel(struct vtask *vt) {
     mon_ev(EV_CANCEL_CALL, (uint64_t)vt->id, 0, 0);
     aws_thread_scheduler_cancel_task(S.sched, &vt->task);
-    mon_ev(EV_CANCEL_RET, (uint64_t)vt->id, 0, 0);
+    /* clock read AFTER the call returned: if it is still below the task's time, the task was certainly pending */
+    mon_ev(EV_CANCEL_RET, (uint64_t)vt->id, 0, now_ns());
 }
 
 static void task_fn(struct aws_task *task, void *arg, enum aws_task_status status) {
@@ -137,9 +140,17 @@ static void task_fn(struct aws_task *task, void *arg, enum aws_task_status statu
                     do_schedule(vt);
                 }
                 break;
+            case S_BUSY: {
+                struct timespec ts = {0, (long)vt->busy_us * 1000};
+                nanosleep(&ts, NULL);
+                break;
+            }
             default:
                 break;
         }
+    } else if (vt->slow_on_cancel_us) {
+        struct timespec ts = {0, (long)vt->slow_on_cancel_us * 1000};
+        nanosleep(&ts, NULL);
     }
     mon_ev(EV_INVOKE_EXIT, (uint64_t)vt->id, 0, 0);
 }
@@ -248,7 +259,13 @@ static void generate(struct mon_rng *r) {
                         }
                     } else if (sc < 38) {
                         vt->script = S_SELF_RESCHED;
+                    } else if (sc < 50) {
+                        vt->script = S_BUSY;
+                        vt->busy_us = 200 + (uint32_t)mon_below(r, 4000);
                     }
+                }
+                if (mon_chance(r, 1, 6)) {
+                    vt->slow_on_cancel_us = 200 + (uint32_t)mon_below(r, 3000);
                 }
                 a->kind = A_SCHED;
                 a->task = vt->id;
@@ -286,6 +303,7 @@ struct tstate {
     uint64_t first_run_t, first_cancel_t, second_t;
     int first_status; /* 0 none, 1 run, 2 canceled */
     bool cancel_called;
+    uint64_t cancel_ret_clock; /* 0: the cancel call has not returned (or never happened) */
     uint64_t cancel_call_t;
     unsigned cancel_tix;
     bool run_after_cancel_same_thread;
@@ -317,6 +335,9 @@ static void check_history(struct mon_event *ev, size_t n, const struct mon_alloc
                 t->cancel_called = true;
                 t->cancel_call_t = e->t;
                 t->cancel_tix = e->tix;
+                break;
+            case EV_CANCEL_RET:
+                t->cancel_ret_clock = e->c;
                 break;
             case EV_RELEASE_CALL:
                 ++n_release_calls;
@@ -443,6 +464,19 @@ static void check_history(struct mon_event *ev, size_t n, const struct mon_alloc
             mon_flag(F_CANCEL_FROM_TASK);
         } else {
             mon_flag(F_CANCEL_RACING);
+        }
+        /* strict (c): the cancel call had returned while the clock still read less than the task's time. A task is
+         * never started before its time (checked separately), so it was pending when it was cancelled: exactly one
+         * invocation, with CANCELED. (Single incarnation: self-rescheduling tasks are never cancelled.) */
+        if (vt->sched_time[0] != 0 && t->cancel_ret_clock != 0 && t->cancel_ret_clock < vt->sched_time[0] && !t->early) {
+            mon_flag(F_CANCEL_BEFORE_TIME);
+            if (t->n_run != 0 || t->n_cancel != 1) {
+                mon_violation(t->n_cancel ? "C08:strict-c:run-then-canceled" : "C08:strict-c:run-only",
+                              "task %d (due %llu ns after its cancel call had returned) was invoked %d time(s) with RUN and %d time(s) with CANCELED; it was cancelled while "
+                              "pending, so exactly one CANCELED invocation is required",
+                              i, (unsigned long long)(vt->sched_time[0] - t->cancel_ret_clock), t->n_run, t->n_cancel);
+            }
+            continue;
         }
         if (t->run_after_cancel_same_thread) {
             /* the cancel was issued on the scheduler thread by another task before this one started: it was pending */
@@ -596,7 +630,7 @@ int main(int argc, char **argv) {
     mon_watchdog_disarm();
     static const char *names[] = {"cancel_far_future_strict", "cancel_racing_by_client", "cancel_from_task_on_scheduler_thread", "release_right_after_schedule",
                                   "tasks_pending_at_release", "self_reschedule", "task_schedules_task", "multiple_clients", "final_release_by_client",
-                                  "run_then_canceled_ambiguous", "unused", "timed_task_ran"};
+                                  "run_then_canceled_ambiguous", "unused", "timed_task_ran", "cancel_returned_before_task_time_strict"};
     for (int i = 0; i < (int)(sizeof(names) / sizeof(names[0])); ++i) {
         mon_flag_name(i, names[i]);
     }
